@@ -100,9 +100,11 @@ class Prop:
         acts = [{"id": i, "how": rng.choice(["rel", "abs", "abs", "imm"]), "ms": rng.choice([0, 1, 5, 10, 10, 20, 50]),
                  "tz": rng.choice([None, None, -5, 3, 5.5])} for i in range(n)]  # abs: the same instant written in another time zone
         cancels = [{"id": rng.randrange(n), "after_ms": rng.choice([0, 1, 2, 4, 5, 9, 10, 19, 30])} for _ in range(rng.randrange(0, 4))]
-        return {"kind": rng.choice(KINDS), "actions": acts, "cancels": cancels, "sched": th.gen_sched(rng, spurious_p=0.3, drift_p=0.4)}
+        return {"kind": rng.choice(KINDS), "actions": acts, "cancels": cancels, "sched": th.gen_sched(rng, spurious_p=0.3, drift_p=0.4, sweep_p=0.02)}
 
     def execute(self, sc):
+        if sc["sched"].get("sweep") and "cps" not in sc:
+            return th.sweep(self.execute, sc)
         out = Outcome()
         holder = {}
 
